@@ -127,7 +127,7 @@ class Guards:
             if a:
                 self.atoms_seen.add(a.lstrip("!"))
 
-    def reach(self, valuation: Dict[str, bool]) -> Set[int]:
+    def reach(self, valuation: Dict[str, bool], avoid: Iterable[int] = ()) -> Set[int]:
         def val(e):
             a = self.matcher(e)
             if a is not None and a.lstrip("!") in valuation:
@@ -135,7 +135,7 @@ class Guards:
                 return (not v) if a.startswith("!") else v
             return None
 
-        return C.reach_under(self.g, val)
+        return C.reach_under(self.g, val, avoid=avoid)
 
     def node_of_expr(self, e: ast.AST) -> Optional[int]:
         return self.g.node_containing(e)
